@@ -81,19 +81,22 @@ theorem nearest_ok (pos : List (Rat × Rat)) (probes : List Nat) (peak ncw : Nat
 /-- … where "the peak channel" of template / cluster `t` is THE peak channel (first channel of largest peak-to-peak,
 C09 `IsPeakChannel`) of the STORED waveform `wfs[t]` — `model.templates_channels` / `model.clusters_channels`
 (`_channels`, model.py:1289-1299, on `sparse_templates.data` / `sparse_clusters.data`, i.e. the WHITENED template), the
-source the property's anchors name.  The statement does not say "of the exported waveform", and under a whitening
+source the property's anchors name — and the listed row is row `t` of the EXPORTED table `exportListedChannels` (the
+model of `templates.waveformsChannels` / `clusters.waveformsChannels`, one row per template / cluster), not a row
+computed beside the export.  `hpos`, `hpr`: one position and one probe label per channel of the waveform (model.py:404;
+no position / label is read as a default).  The statement does not say "of the exported waveform", and under a whitening
 matrix that is far from a multiple of the identity the two differ (`wmi = diag(1, 8)`, stored template
 `[[2, 1], [-2, -1], [0, 0]]`: listed channels `[0, 1]`, depth of channel 0, while the exported unwhitened waveform
 `[[2, 8], [-2, -8], [0, 0]]` and `templates.amps` peak on channel 1).  Reading adopted here: the model's own peak
 channel, as for C09; `clusters.channels`, `clusters.depths` and `clusters.peakToTrough` use the same channel. -/
 theorem listed_channels_of_waveform (wfs : List Mat) (pos : List (Rat × Rat)) (probes : List Nat)
     (ncw t ns nc : Nat) (ht : t < wfs.length) (hrect : Rect (wfs.getD t []) ns nc) (hns : 0 < ns) (hnc : 0 < nc)
-    (hpos : pos.length = nc) :
+    (hpos : pos.length = nc) (hpr : probes.length = pos.length) :
     IsPeakChannel (wfs.getD t []) nc ((peakChannels wfs).getD t 0) ∧
     nearestOK pos probes ((peakChannels wfs).getD t 0) ncw
-      (nearestSameProbe pos probes ((peakChannels wfs).getD t 0) ncw) = true :=
-  ⟨(C09.Lemmas.peakChannels_spec wfs t ns nc ht hrect hns hnc).1,
-   Lemmas.nearest_ok pos probes _ ncw (hpos ▸ (C09.Lemmas.peakChannels_spec wfs t ns nc ht hrect hns hnc).1.1)⟩
+      ((exportListedChannels wfs pos probes ncw).getD t []) = true ∧
+    (exportListedChannels wfs pos probes ncw).length = wfs.length :=
+  Lemmas.listed_channels_of_waveform wfs pos probes ncw t ns nc ht hrect hns hnc hpos hpr
 
 -- `ht hs hc`: the domain; the equation holds without them (both sides would then read defaults)
 set_option linter.unusedVariables false in
@@ -345,7 +348,10 @@ example : nearestSameProbe [(0, 0), (0, 20)] [0, 0] ((peakChannels [[[2, 1], [-2
   decide +kernel
 example : IsPeakChannel ([[[2, 1], [-2, -1], [0, 0]]].getD 0 []) 2 ((peakChannels [[[2, 1], [-2, -1], [0, 0]]]).getD 0 0) :=
   (listed_channels_of_waveform [[[2, 1], [-2, -1], [0, 0]]] [(0, 0), (0, 20)] [0, 0] 2 0 3 2 (by decide)
-    ⟨by decide, by decide⟩ (by decide) (by decide) (by decide)).1
+    ⟨by decide, by decide⟩ (by decide) (by decide) (by decide) (by decide)).1
+-- the exported table for two waveforms on a two-probe layout: one row per waveform, each on its peak's probe first
+example : exportListedChannels [[[2, 1, 0], [-2, -1, 0]], [[0, 1, 5], [0, 0, -5]]] [(0, 0), (0, 20), (10, 10)] [0, 0, 1] 2 =
+    [[0, 1], [2, 0]] := by decide +kernel
 section Instances
 def exT : Data := ⟨[[[1, 0], [-1, 2]], [[0, 3], [0, -3]], [[5, 5], [1, 1]]], [[2, 0], [0, 1/2]], [1, 2, 1/2], [0, 0, 1]⟩
 def exC : Data := ⟨[[[1, 0], [-1, 2]], [[0, 3], [0, -3]]], [[2, 0], [0, 1/2]], [1, 2, 1/2], [1, 0, 1]⟩
